@@ -42,6 +42,11 @@ package rib
 //@ assigns ribState, spawned, hookCount
 //@ props C01 C02 C06 C12:safety C12:ensures#fatal
 
+// opDeletable: the payload of op names a key a DELETE can address.
+//@ pred opDeletable(op *spb.AFTOperation) = op != nil && (istype(op.Entry, *spb.AFTOperation_Ipv4) ==> op.GetIpv4() != nil) && (istype(op.Entry, *spb.AFTOperation_Ipv6) ==> op.GetIpv6() != nil)
+//@   && (istype(op.Entry, *spb.AFTOperation_Mpls) ==> op.GetMpls() != nil && istype(op.GetMpls().Label, *aftpb.Afts_LabelEntryKey_LabelUint64) && op.GetMpls().GetLabelUint64() < 4294967296)
+//@   && (istype(op.Entry, *spb.AFTOperation_NextHopGroup) ==> op.GetNextHopGroup() != nil && op.GetNextHopGroup().GetId() != 0)
+//@   && (istype(op.Entry, *spb.AFTOperation_NextHop) ==> op.GetNextHop() != nil && op.GetNextHop().GetIndex() != 0)
 //@ unit RIB.DeleteEntry
 //@ requires holdersWF(r) && pendingWF(r) && ribQuiet(r) && unixTS != nil && (op != nil ==> opWF(op))
 //@ ensures[wf] resultsWF(result0) && resultsWF(result1)
@@ -50,6 +55,10 @@ package rib
 //@ ensures[own-id] forall i in 0..len(result0) :: result0[i].ID == op.GetId()
 //@ ensures[own-id-fail] forall i in 0..len(result1) :: result1[i].ID == op.GetId()
 //@ ensures[held-untouched] dom(r.pendingEntries) == old(dom(r.pendingEntries))
+// the verdict of a DELETE is the gate's: acknowledged only when the instance's check approved it (or there is no check),
+// and a well-formed DELETE that the check approved (or that is not checked) is acknowledged, never failed.
+//@ ensures[ok-only-if-approved] len(result0) > 0 && r.niRIB[ni].checkFn != nil ==> approvedBy(old(gateCalls), gateCalls, constants.Delete)
+//@ ensures[approved-means-ok] result2 == nil && opDeletable(op) && (r.niRIB[ni].checkFn == nil || approvedBy(old(gateCalls), gateCalls, constants.Delete)) ==> len(result0) == 1 && len(result1) == 0
 //@ assert at "oks = append(oks, &OpResult{" [ack-removed] opRemoved(niR, op) && removed
 //@ assert at "Error: err.Error()," [failed-no-trace] keptAll(niR.r.Afts)
 //@ loop 1 at "range originalNHG.NextHop" invariant holdersWF(r) && registered(r, niR) && opRemoved(niR, op) && removed && originalNHG != nil
@@ -555,13 +564,21 @@ package rib
 
 // ---- generated: candidate construction, Add/Delete per table ----
 //@ ghostvar hookCount Int
+//@ ghostvar gateCalls Int
+//@ ghostvar gateOp Int
+//@ ghostvar gateCand Int
+//@ ghostvar gateOK Bool
+//@ ghostvar gateFatal Bool
+//@ pred approvedBy(n0 int, n1 int, op int) = n1 == n0 + 1 && gateOp == op && gateOK && !gateFatal
 //@ fnfield RIBHolder.postChangeHook
 //@ why client-supplied notification hook: arbitrary code assumed not to call back into the RIB; each call is one ghost event
 //@ ensures hookCount == old(hookCount) + 1
 //@ assigns hookCount
 //@ fnfield RIBHolder.checkFn
 //@ why the holder's check function is the closure built by NewRIBHolder around RIB.checkFn (canResolve / canDelete); it reads the RIB and modifies nothing
-//@ assigns nothing
+//@ ensures[gate-event] gateCalls == old(gateCalls) + 1 && gateOp == arg0 && gateCand == arg1
+//@ ensures[gate-verdict] (gateOK <==> result0) && (gateFatal <==> result1 != nil)
+//@ assigns gateCalls, gateOp, gateCand, gateOK, gateFatal
 //@ fnfield unixTS
 //@ why the clock returns an arbitrary int64
 
@@ -604,11 +621,16 @@ package rib
 //@ ensures[orig] result0 ==> result1 == old(r.r.Afts.Ipv4Entry[e.GetPrefix()])
 //@ ensures[explicit-replace] explicitReplace && e != nil && !(e.GetPrefix() in old(dom(r.r.Afts.Ipv4Entry))) ==> !result0 && result2 != nil
 //@ ensures[hook] result0 ==> hookCount == old(hookCount) + ite(old(r.postChangeHook) != nil, 1, 0)
+//@ ensures[installed-only-if-approved] result0 && r.checkFn != nil ==> approvedBy(old(gateCalls), gateCalls, constants.Add)
+//@ ensures[held-only-if-refused] !result0 && result2 == nil ==> r.checkFn != nil && gateCalls == old(gateCalls) + 1 && gateOp == constants.Add && !gateOK && !gateFatal
+//@ ensures[ungated] r.checkFn == nil ==> gateCalls == old(gateCalls)
+//@ ensures[one-gate-call] gateCalls <= old(gateCalls) + 1
+//@ assert at "r.doAddIPv4(" [gate-saw-the-candidate] r.checkFn != nil ==> gateCalls == old(gateCalls) + 1 && gateCand == nr && gateOp == constants.Add
 //@ ensures[wf] holderWF(r)
 //@ loop 1 invariant (forall j in visited :: j == e.GetPrefix()) && hookCount == old(hookCount) + ite(e.GetPrefix() in visited, 1, 0)
 //@ loop 1 invariant e != nil && holderWF(r) && e.GetPrefix() in dom(r.r.Afts.Ipv4Entry) && r.r.Afts.Ipv4Entry[e.GetPrefix()] != nil && fresh(r.r.Afts.Ipv4Entry[e.GetPrefix()]) && othersKept_v4(r.r.Afts, e.GetPrefix())
 //@ loop 1 invariant fromProto_v4(r.r.Afts.Ipv4Entry[e.GetPrefix()], e) && candOnly_v4(nr.Afts, e.GetPrefix()) && nr != nil && nr.Afts != nil && r.postChangeHook != nil
-//@ assigns r.r.Afts.Ipv4Entry, contents(r.r.Afts.Ipv4Entry), hookCount
+//@ assigns r.r.Afts.Ipv4Entry, contents(r.r.Afts.Ipv4Entry), hookCount, gateCalls, gateOp, gateCand, gateOK, gateFatal
 //@ props C01 C02 C16 C12:safety C12:ensures#nil C12:ensures#err-not-installed C12:ensures#no-trace
 
 //@ unit RIBHolder.AddIPv6
@@ -621,11 +643,16 @@ package rib
 //@ ensures[orig] result0 ==> result1 == old(r.r.Afts.Ipv6Entry[e.GetPrefix()])
 //@ ensures[explicit-replace] explicitReplace && e != nil && !(e.GetPrefix() in old(dom(r.r.Afts.Ipv6Entry))) ==> !result0 && result2 != nil
 //@ ensures[hook] result0 ==> hookCount == old(hookCount) + ite(old(r.postChangeHook) != nil, 1, 0)
+//@ ensures[installed-only-if-approved] result0 && r.checkFn != nil ==> approvedBy(old(gateCalls), gateCalls, constants.Add)
+//@ ensures[held-only-if-refused] !result0 && result2 == nil ==> r.checkFn != nil && gateCalls == old(gateCalls) + 1 && gateOp == constants.Add && !gateOK && !gateFatal
+//@ ensures[ungated] r.checkFn == nil ==> gateCalls == old(gateCalls)
+//@ ensures[one-gate-call] gateCalls <= old(gateCalls) + 1
+//@ assert at "r.doAddIPv6(" [gate-saw-the-candidate] r.checkFn != nil ==> gateCalls == old(gateCalls) + 1 && gateCand == nr && gateOp == constants.Add
 //@ ensures[wf] holderWF(r)
 //@ loop 1 invariant (forall j in visited :: j == e.GetPrefix()) && hookCount == old(hookCount) + ite(e.GetPrefix() in visited, 1, 0)
 //@ loop 1 invariant e != nil && holderWF(r) && e.GetPrefix() in dom(r.r.Afts.Ipv6Entry) && r.r.Afts.Ipv6Entry[e.GetPrefix()] != nil && fresh(r.r.Afts.Ipv6Entry[e.GetPrefix()]) && othersKept_v6(r.r.Afts, e.GetPrefix())
 //@ loop 1 invariant fromProto_v6(r.r.Afts.Ipv6Entry[e.GetPrefix()], e) && candOnly_v6(nr.Afts, e.GetPrefix()) && nr != nil && nr.Afts != nil && r.postChangeHook != nil
-//@ assigns r.r.Afts.Ipv6Entry, contents(r.r.Afts.Ipv6Entry), hookCount
+//@ assigns r.r.Afts.Ipv6Entry, contents(r.r.Afts.Ipv6Entry), hookCount, gateCalls, gateOp, gateCand, gateOK, gateFatal
 //@ props C01 C02 C16 C12:safety C12:ensures#nil C12:ensures#err-not-installed C12:ensures#no-trace
 
 //@ unit RIBHolder.AddMPLS
@@ -639,11 +666,16 @@ package rib
 //@ ensures[orig] result0 ==> result1 == old(r.r.Afts.LabelEntry[boxed(aft.UnionUint32, e.GetLabelUint64())])
 //@ ensures[explicit-replace] explicitReplace && e != nil && !(boxed(aft.UnionUint32, e.GetLabelUint64()) in old(dom(r.r.Afts.LabelEntry))) ==> !result0 && result2 != nil
 //@ ensures[hook] result0 ==> hookCount == old(hookCount) + ite(old(r.postChangeHook) != nil, 1, 0)
+//@ ensures[installed-only-if-approved] result0 && r.checkFn != nil ==> approvedBy(old(gateCalls), gateCalls, constants.Add)
+//@ ensures[held-only-if-refused] !result0 && result2 == nil ==> r.checkFn != nil && gateCalls == old(gateCalls) + 1 && gateOp == constants.Add && !gateOK && !gateFatal
+//@ ensures[ungated] r.checkFn == nil ==> gateCalls == old(gateCalls)
+//@ ensures[one-gate-call] gateCalls <= old(gateCalls) + 1
+//@ assert at "r.doAddMPLS(" [gate-saw-the-candidate] r.checkFn != nil ==> gateCalls == old(gateCalls) + 1 && gateCand == nr && gateOp == constants.Add
 //@ ensures[wf] holderWF(r)
 //@ loop 1 invariant (forall j in visited :: j == boxed(aft.UnionUint32, e.GetLabelUint64())) && hookCount == old(hookCount) + ite(boxed(aft.UnionUint32, e.GetLabelUint64()) in visited, 1, 0)
 //@ loop 1 invariant e != nil && holderWF(r) && boxed(aft.UnionUint32, e.GetLabelUint64()) in dom(r.r.Afts.LabelEntry) && r.r.Afts.LabelEntry[boxed(aft.UnionUint32, e.GetLabelUint64())] != nil && fresh(r.r.Afts.LabelEntry[boxed(aft.UnionUint32, e.GetLabelUint64())]) && othersKept_mpls(r.r.Afts, boxed(aft.UnionUint32, e.GetLabelUint64()))
 //@ loop 1 invariant fromProto_mpls(r.r.Afts.LabelEntry[boxed(aft.UnionUint32, e.GetLabelUint64())], e) && candOnly_mpls(nr.Afts, boxed(aft.UnionUint32, e.GetLabelUint64())) && nr != nil && nr.Afts != nil && r.postChangeHook != nil
-//@ assigns r.r.Afts.LabelEntry, contents(r.r.Afts.LabelEntry), hookCount
+//@ assigns r.r.Afts.LabelEntry, contents(r.r.Afts.LabelEntry), hookCount, gateCalls, gateOp, gateCand, gateOK, gateFatal
 //@ props C01 C02 C16 C12:safety C12:ensures#nil C12:ensures#err-not-installed C12:ensures#no-trace
 
 //@ unit RIBHolder.AddNextHopGroup
@@ -656,12 +688,17 @@ package rib
 //@ ensures[orig] result0 ==> result1 == old(r.r.Afts.NextHopGroup[e.GetId()])
 //@ ensures[explicit-replace] explicitReplace && e != nil && !(e.GetId() in old(dom(r.r.Afts.NextHopGroup))) ==> !result0 && result2 != nil
 //@ ensures[hook] result0 ==> hookCount == old(hookCount) + ite(old(r.postChangeHook) != nil, 1, 0)
+//@ ensures[installed-only-if-approved] result0 && r.checkFn != nil ==> approvedBy(old(gateCalls), gateCalls, constants.Add)
+//@ ensures[held-only-if-refused] !result0 && result2 == nil ==> r.checkFn != nil && gateCalls == old(gateCalls) + 1 && gateOp == constants.Add && !gateOK && !gateFatal
+//@ ensures[ungated] r.checkFn == nil ==> gateCalls == old(gateCalls)
+//@ ensures[one-gate-call] gateCalls <= old(gateCalls) + 1
+//@ assert at "r.doAddNHG(" [gate-saw-the-candidate] r.checkFn != nil ==> gateCalls == old(gateCalls) + 1 && gateCand == nr && gateOp == constants.Add
 //@ ensures[wf] holderWF(r)
 //@ loop 1 invariant (forall j in visited :: j == e.GetId()) && hookCount == old(hookCount) + ite(e.GetId() in visited, 1, 0)
 //@ loop 1 invariant e != nil && holderWF(r) && e.GetId() in dom(r.r.Afts.NextHopGroup) && r.r.Afts.NextHopGroup[e.GetId()] != nil && fresh(r.r.Afts.NextHopGroup[e.GetId()]) && othersKept_nhg(r.r.Afts, e.GetId())
 //@ loop 1 invariant e.GetNextHopGroup() != nil && fromProto_nhg(r.r.Afts.NextHopGroup[e.GetId()], e) && candOnly_nhg(nr.Afts, e.GetId()) && nr != nil && nr.Afts != nil && r.postChangeHook != nil
 //@ loop 1 invariant groupWF(nr.Afts.NextHopGroup[e.GetId()])
-//@ assigns r.r.Afts.NextHopGroup, contents(r.r.Afts.NextHopGroup), hookCount
+//@ assigns r.r.Afts.NextHopGroup, contents(r.r.Afts.NextHopGroup), hookCount, gateCalls, gateOp, gateCand, gateOK, gateFatal
 //@ props C01 C02 C16 C12:safety C12:ensures#nil C12:ensures#err-not-installed C12:ensures#no-trace
 
 //@ unit RIBHolder.AddNextHop
@@ -674,11 +711,16 @@ package rib
 //@ ensures[orig] result0 ==> result1 == old(r.r.Afts.NextHop[e.GetIndex()])
 //@ ensures[explicit-replace] explicitReplace && e != nil && !(e.GetIndex() in old(dom(r.r.Afts.NextHop))) ==> !result0 && result2 != nil
 //@ ensures[hook] result0 ==> hookCount == old(hookCount) + ite(old(r.postChangeHook) != nil, 1, 0)
+//@ ensures[installed-only-if-approved] result0 && r.checkFn != nil ==> approvedBy(old(gateCalls), gateCalls, constants.Add)
+//@ ensures[held-only-if-refused] !result0 && result2 == nil ==> r.checkFn != nil && gateCalls == old(gateCalls) + 1 && gateOp == constants.Add && !gateOK && !gateFatal
+//@ ensures[ungated] r.checkFn == nil ==> gateCalls == old(gateCalls)
+//@ ensures[one-gate-call] gateCalls <= old(gateCalls) + 1
+//@ assert at "r.doAddNH(" [gate-saw-the-candidate] r.checkFn != nil ==> gateCalls == old(gateCalls) + 1 && gateCand == nr && gateOp == constants.Add
 //@ ensures[wf] holderWF(r)
 //@ loop 1 invariant (forall j in visited :: j == e.GetIndex()) && hookCount == old(hookCount) + ite(e.GetIndex() in visited, 1, 0)
 //@ loop 1 invariant e != nil && holderWF(r) && e.GetIndex() in dom(r.r.Afts.NextHop) && r.r.Afts.NextHop[e.GetIndex()] != nil && fresh(r.r.Afts.NextHop[e.GetIndex()]) && othersKept_nh(r.r.Afts, e.GetIndex())
 //@ loop 1 invariant fromProto_nh(r.r.Afts.NextHop[e.GetIndex()], e) && candOnly_nh(nr.Afts, e.GetIndex()) && nr != nil && nr.Afts != nil && r.postChangeHook != nil
-//@ assigns r.r.Afts.NextHop, contents(r.r.Afts.NextHop), hookCount
+//@ assigns r.r.Afts.NextHop, contents(r.r.Afts.NextHop), hookCount, gateCalls, gateOp, gateCand, gateOK, gateFatal
 //@ props C01 C02 C16 C12:safety C12:ensures#nil C12:ensures#err-not-installed C12:ensures#no-trace
 
 //@ unit RIBHolder.DeleteIPv4
@@ -689,8 +731,14 @@ package rib
 //@ ensures[removed] result0 ==> e != nil && !(e.GetPrefix() in dom(r.r.Afts.Ipv4Entry)) && othersKept_v4(r.r.Afts, e.GetPrefix())
 //@ ensures[orig] result0 ==> result1 == old(r.r.Afts.Ipv4Entry[e.GetPrefix()])
 //@ ensures[hook] result0 ==> hookCount == old(hookCount) + ite(old(r.postChangeHook) != nil, 1, 0)
+//@ ensures[removed-only-if-approved] result0 && r.checkFn != nil ==> approvedBy(old(gateCalls), gateCalls, constants.Delete)
+//@ ensures[kept-only-if-refused] !result0 && result2 == nil ==> r.checkFn != nil && gateCalls == old(gateCalls) + 1 && gateOp == constants.Delete && !gateOK && !gateFatal
+//@ ensures[approved-means-removed] e != nil && (r.checkFn == nil || approvedBy(old(gateCalls), gateCalls, constants.Delete)) ==> result0 && result2 == nil
+//@ ensures[ungated] r.checkFn == nil ==> gateCalls == old(gateCalls)
+//@ ensures[one-gate-call] gateCalls <= old(gateCalls) + 1
+//@ assert at "r.doDeleteIPv4(" [gate-saw-the-key] r.checkFn != nil ==> gateCalls == old(gateCalls) + 1 && gateOp == constants.Delete && gateCand == rr && candOnly_v4(rr.Afts, e.GetPrefix())
 //@ ensures[wf] holderWF(r)
-//@ assigns r.r.Afts.Ipv4Entry[e.GetPrefix()], hookCount
+//@ assigns r.r.Afts.Ipv4Entry[e.GetPrefix()], hookCount, gateCalls, gateOp, gateCand, gateOK, gateFatal
 //@ props C01 C03 C16 C12:safety C12:ensures#nil C12:ensures#err-not-removed C12:ensures#no-trace
 
 //@ unit RIBHolder.DeleteIPv6
@@ -701,8 +749,14 @@ package rib
 //@ ensures[removed] result0 ==> e != nil && !(e.GetPrefix() in dom(r.r.Afts.Ipv6Entry)) && othersKept_v6(r.r.Afts, e.GetPrefix())
 //@ ensures[orig] result0 ==> result1 == old(r.r.Afts.Ipv6Entry[e.GetPrefix()])
 //@ ensures[hook] result0 ==> hookCount == old(hookCount) + ite(old(r.postChangeHook) != nil, 1, 0)
+//@ ensures[removed-only-if-approved] result0 && r.checkFn != nil ==> approvedBy(old(gateCalls), gateCalls, constants.Delete)
+//@ ensures[kept-only-if-refused] !result0 && result2 == nil ==> r.checkFn != nil && gateCalls == old(gateCalls) + 1 && gateOp == constants.Delete && !gateOK && !gateFatal
+//@ ensures[approved-means-removed] e != nil && (r.checkFn == nil || approvedBy(old(gateCalls), gateCalls, constants.Delete)) ==> result0 && result2 == nil
+//@ ensures[ungated] r.checkFn == nil ==> gateCalls == old(gateCalls)
+//@ ensures[one-gate-call] gateCalls <= old(gateCalls) + 1
+//@ assert at "r.doDeleteIPv6(" [gate-saw-the-key] r.checkFn != nil ==> gateCalls == old(gateCalls) + 1 && gateOp == constants.Delete && gateCand == rr && candOnly_v6(rr.Afts, e.GetPrefix())
 //@ ensures[wf] holderWF(r)
-//@ assigns r.r.Afts.Ipv6Entry[e.GetPrefix()], hookCount
+//@ assigns r.r.Afts.Ipv6Entry[e.GetPrefix()], hookCount, gateCalls, gateOp, gateCand, gateOK, gateFatal
 //@ props C01 C03 C16 C12:safety C12:ensures#nil C12:ensures#err-not-removed C12:ensures#no-trace
 
 //@ unit RIBHolder.DeleteMPLS
@@ -715,8 +769,14 @@ package rib
 //@ ensures[named-key-only] result0 ==> e.GetLabelUint64() < 4294967296
 //@ ensures[orig] result0 ==> result1 == old(r.r.Afts.LabelEntry[boxed(aft.UnionUint32, wrap32(e.GetLabelUint64()))])
 //@ ensures[hook] result0 ==> hookCount == old(hookCount) + ite(old(r.postChangeHook) != nil, 1, 0)
+//@ ensures[removed-only-if-approved] result0 && r.checkFn != nil ==> approvedBy(old(gateCalls), gateCalls, constants.Delete)
+//@ ensures[kept-only-if-refused] !result0 && result2 == nil ==> r.checkFn != nil && gateCalls == old(gateCalls) + 1 && gateOp == constants.Delete && !gateOK && !gateFatal
+//@ ensures[approved-means-removed] e != nil && istype(e.Label, *aftpb.Afts_LabelEntryKey_LabelUint64) && e.GetLabelUint64() < 4294967296 && (r.checkFn == nil || approvedBy(old(gateCalls), gateCalls, constants.Delete)) ==> result0 && result2 == nil
+//@ ensures[ungated] r.checkFn == nil ==> gateCalls == old(gateCalls)
+//@ ensures[one-gate-call] gateCalls <= old(gateCalls) + 1
+//@ assert at "r.doDeleteMPLS(" [gate-saw-the-key] r.checkFn != nil ==> gateCalls == old(gateCalls) + 1 && gateOp == constants.Delete && gateCand == rr && candOnly_mpls(rr.Afts, boxed(aft.UnionUint32, wrap32(e.GetLabelUint64())))
 //@ ensures[wf] holderWF(r)
-//@ assigns r.r.Afts.LabelEntry[boxed(aft.UnionUint32, wrap32(e.GetLabelUint64()))], hookCount
+//@ assigns r.r.Afts.LabelEntry[boxed(aft.UnionUint32, wrap32(e.GetLabelUint64()))], hookCount, gateCalls, gateOp, gateCand, gateOK, gateFatal
 //@ props C01 C03 C16 C12:safety C12:ensures#nil C12:ensures#err-not-removed C12:ensures#no-trace
 
 //@ unit RIBHolder.DeleteNextHopGroup
@@ -727,8 +787,14 @@ package rib
 //@ ensures[removed] result0 ==> e != nil && !(e.GetId() in dom(r.r.Afts.NextHopGroup)) && othersKept_nhg(r.r.Afts, e.GetId())
 //@ ensures[orig] result0 ==> result1 == old(r.r.Afts.NextHopGroup[e.GetId()])
 //@ ensures[hook] result0 ==> hookCount == old(hookCount) + ite(old(r.postChangeHook) != nil, 1, 0)
+//@ ensures[removed-only-if-approved] result0 && r.checkFn != nil ==> approvedBy(old(gateCalls), gateCalls, constants.Delete)
+//@ ensures[kept-only-if-refused] !result0 && result2 == nil ==> r.checkFn != nil && gateCalls == old(gateCalls) + 1 && gateOp == constants.Delete && !gateOK && !gateFatal
+//@ ensures[approved-means-removed] e != nil && e.GetId() != 0 && (r.checkFn == nil || approvedBy(old(gateCalls), gateCalls, constants.Delete)) ==> result0 && result2 == nil
+//@ ensures[ungated] r.checkFn == nil ==> gateCalls == old(gateCalls)
+//@ ensures[one-gate-call] gateCalls <= old(gateCalls) + 1
+//@ assert at "r.doDeleteNHG(" [gate-saw-the-key] r.checkFn != nil ==> gateCalls == old(gateCalls) + 1 && gateOp == constants.Delete && gateCand == rr && candOnly_nhg(rr.Afts, e.GetId())
 //@ ensures[wf] holderWF(r)
-//@ assigns r.r.Afts.NextHopGroup[e.GetId()], hookCount
+//@ assigns r.r.Afts.NextHopGroup[e.GetId()], hookCount, gateCalls, gateOp, gateCand, gateOK, gateFatal
 //@ props C01 C03 C16 C12:safety C12:ensures#nil C12:ensures#err-not-removed C12:ensures#no-trace
 
 //@ unit RIBHolder.DeleteNextHop
@@ -739,8 +805,14 @@ package rib
 //@ ensures[removed] result0 ==> e != nil && !(e.GetIndex() in dom(r.r.Afts.NextHop)) && othersKept_nh(r.r.Afts, e.GetIndex())
 //@ ensures[orig] result0 ==> result1 == old(r.r.Afts.NextHop[e.GetIndex()])
 //@ ensures[hook] result0 ==> hookCount == old(hookCount) + ite(old(r.postChangeHook) != nil, 1, 0)
+//@ ensures[removed-only-if-approved] result0 && r.checkFn != nil ==> approvedBy(old(gateCalls), gateCalls, constants.Delete)
+//@ ensures[kept-only-if-refused] !result0 && result2 == nil ==> r.checkFn != nil && gateCalls == old(gateCalls) + 1 && gateOp == constants.Delete && !gateOK && !gateFatal
+//@ ensures[approved-means-removed] e != nil && e.GetIndex() != 0 && (r.checkFn == nil || approvedBy(old(gateCalls), gateCalls, constants.Delete)) ==> result0 && result2 == nil
+//@ ensures[ungated] r.checkFn == nil ==> gateCalls == old(gateCalls)
+//@ ensures[one-gate-call] gateCalls <= old(gateCalls) + 1
+//@ assert at "r.doDeleteNH(" [gate-saw-the-key] r.checkFn != nil ==> gateCalls == old(gateCalls) + 1 && gateOp == constants.Delete && gateCand == rr && candOnly_nh(rr.Afts, e.GetIndex())
 //@ ensures[wf] holderWF(r)
-//@ assigns r.r.Afts.NextHop[e.GetIndex()], hookCount
+//@ assigns r.r.Afts.NextHop[e.GetIndex()], hookCount, gateCalls, gateOp, gateCand, gateOK, gateFatal
 //@ props C01 C03 C16 C12:safety C12:ensures#nil C12:ensures#err-not-removed C12:ensures#no-trace
 
 //@ pred oneofOK(x Iface) = tagof(x) != 0 ==> payload(x) != 0
@@ -1013,9 +1085,11 @@ package rib
 //@    (exists i in old(len(*oks))..len(*oks) :: (*oks)[i].ID == op.GetId()) || (exists i in old(len(*fails))..len(*fails) :: (*fails)[i].ID == op.GetId())
 //@    || op.GetId() in dom(r.pendingEntries)
 //@ assert at "*oks = append(*oks" [ack-installed] opInstalled(niR, op) && installed
+//@ assert at "*oks = append(*oks" [ack-approved] niR.checkFn != nil ==> gateOp == constants.Add && gateOK && !gateFatal
 //@ assert at "Error: opErr.Error()" [failed-no-trace] keptAll(niR.r.Afts)
 //@ assert at "has unresolved dependencies" [failed-no-trace] keptAll(niR.r.Afts) && r.disableForwardReferences
 //@ assert at "r.addPending(op.GetId()" [held-no-trace] keptAll(niR.r.Afts) && !r.disableForwardReferences
+//@ assert at "r.addPending(op.GetId()" [held-refused] niR.checkFn != nil && gateOp == constants.Add && !gateOK && !gateFatal
 //@ loop 1 modular
 //@ at "r.addEntryInternal(" ghost retried = add(retried, ranged[loopi-1].op.GetId())
 //@ at "r.addEntryInternal(" ghost oksBefore = *oks
